@@ -71,6 +71,10 @@ TEXT = {
         "level": "Proof (frame conditions): incremental::run, delete_saved_env_state and save_env_state change the state store at the target's own path only, and that path is a function of (project_dir, target id) only; the skip decision is a function of the record at that path and of the world restricted to the target's own resources (nothing else is read by the contracted functions).",
         "note": INC_NOTE + " Not covered: injectivity of the file-name formatting; that project_dir is canonical (load path).",
     },
+    "C19": {
+        "level": "Proof for the resolution half: both reference kinds of a target (`dependencies:` and `X.output` inputs) are parsed with the referencing target's own project as the default project (so a bare reference always means a target of that same project and equal names in different projects do not interfere); the root project name used for command-line names is the name of the project at the root directory; the resolved map is keyed by each target's own id, so asking for a target twice inserts it once. The string-level behaviour of TargetId::try_parse (no `::` -> current project, one -> named project, more -> rejected) is a bounded Kani harness over names of <= 5 characters, never counted as proved.",
+        "note": "Assumed: TargetId::try_parse as the function parse_ref (its body is exercised only by the bounded harness), the regex of X.output entries (A-yaml), A-hash/A-clone/A-std/A-all as for C09.",
+    },
     "C20": {
         "level": "Proof: an aggregate asks every dependency on the first requester of a kind, acknowledges upward exactly when nothing of that kind is pending (also at once for an empty aggregate or a late requester), reports actual = some dependency reported actual, forwards invalidation only after a stimulus, never executes anything itself.",
         "note": ACT_NOTE + " Not covered: the metamorphic comparison of two real invocations (composition lemma in COMP).",
